@@ -29,7 +29,6 @@ def table(name):
 
 def write_all():
     common.use_repo()
-    common.write_driver_all()
     notes = {}
     for name, fn in TABLES:
         try:
@@ -37,6 +36,7 @@ def write_all():
         except Exception as e:  # a table that cannot be extracted is written as an error marker
             notes[name] = "extract-failed: " + repr(e)[:200]
             _write(name, f"-- extraction failed: {e!r}\n#eval (throw (IO.userError \"extraction failed\") : IO Unit)\n")
+    common.write_driver_all()
     return notes
 
 
